@@ -13,6 +13,7 @@ mod c13;
 mod c12;
 mod c17;
 mod c15;
+mod c07;
 
 use std::io::{BufRead, Write};
 
@@ -59,6 +60,7 @@ fn lookup(id: &str) -> Option<(&'static str, Gen, Exec)> {
         "C12" => Some(("C12", c12::generate, c12::exec)),
         "C17" => Some(("C17", c17::generate, c17::exec)),
         "C15" => Some(("C15", c15::generate, c15::exec)),
+        "C07" => Some(("C07", c07::generate, c07::exec)),
         _ => None,
     }
 }
